@@ -5,7 +5,9 @@
  R3 alignment: the prediction table and the interval vectors of each estimator have the same group universe, the same order
     (ascending by the aggregate keys) and a 0..n-1 index, so the positional assignment puts each bound on its own row;
  R4 bootstrap: pred_margin = nan_to_num((S_R + S_U (results_margin) + S_N (pred_margin)) / pred_turnout) with pred_turnout the
-    documented group sum (C01.R4); the race-call adjustment is the only later write and sits under the top-level guard;
+    documented group sum (C01.R4); the race-call adjustment is the only later write and sits under the top-level guard; the unit
+    table shows exactly the vectors the group totals sum (R4.unit-terms / unit-pass); with several keys the indicator columns are
+    re-ordered by the keys, because get_dummies orders them by the joined string (R3.bootstrap-col-order);
  R5 lower goes to lower_*, upper to upper_*: element 0 / 1 of the interval tuple, field order of both PredictionIntervals
     classes, and the order of the arguments each estimator passes.
 Lemma (not a rule): with all levels being sums over the same three disjoint frames (C01.R1), R1-R2 give county/district tables
